@@ -551,7 +551,10 @@ class QuadratureBattery:
                             continue
                         # finiteness: mass near zero only for finite-activity models; first moment needs finite variation
                         touches0 = aa <= 0 <= bb
-                        if touches0 and ((n == 0 and not nu0.jump_of_finite_activity()) or (n == 1 and not nu0.jump_of_finite_variation())):
+                        # (finite activity decided from the activity index itself: CGMY's own flag says y < -1, the mass near 0
+                        # is finite for every y < 0)
+                        fin_act = nu0.jump_of_finite_activity() or ("cgmy_y=" in name and float(name.split("=")[1]) < 0)
+                        if touches0 and ((n == 0 and not fin_act) or (n == 1 and not nu0.jump_of_finite_variation())):
                             continue
                         ev += 1
                         try:
@@ -568,7 +571,9 @@ class QuadratureBattery:
                         if len(samples) < 3:
                             samples.append(info)
                         if not ok:
-                            viol.setdefault((name.split("_y")[0], n), {"obligation": f"{self.name}[{name.split('_y')[0]},n={n}]::closed-form-equals-density-quadrature", "bounded": self.name, "witness": info})
+                            key = (name, n, "at-zero") if (touches0 and "cgmy_y=-" in name and n == 0) else (name.split("_y")[0], n)
+                            lab = f"{self.name}[{name},n=0,interval-touching-zero]" if key[-1] == "at-zero" else f"{self.name}[{name.split('_y')[0]},n={n}]"
+                            viol.setdefault(key, {"obligation": f"{lab}::closed-form-equals-density-quadrature", "bounded": self.name, "witness": info})
         return {"name": self.name, "evaluations": ev, "distinct_nontrivial": ev, "violations": list(viol.values()), "samples": samples,
                 "bound": f"{len(ms)} models x plain/truncated x n in 0..2 x {len(self.INTERVALS)} intervals"}
 
